@@ -1137,6 +1137,8 @@ fn grid() -> Vec<(&'static str, Vec<f64>)> {
         [0.0, 0.3], [1.0, 0.5], [10.0, 0.3], [10.0, 0.0], [10.0, 1.0], [60.0, 0.5], [61.0, 0.5], [100.0, 0.3], [100.0, 0.31], [1000.0, 0.03],
         [1000.0, 0.031], [1000.0, 0.9], [1000.0, 0.97], [1000.0, 0.969], [50.0, 0.97], [20.0, 0.7], [200.0, 0.5], [100000.0, 2e-4], [1000000.0, 0.4],
         [1000000.0, 0.99999], [70.0, 0.5], [15.0, 0.3],
+        // fair coins at machine-word sizes (bit-counting shortcuts) and just beside them
+        [31.0, 0.5], [32.0, 0.5], [33.0, 0.5], [63.0, 0.5], [64.0, 0.5], [65.0, 0.5], [127.0, 0.5], [128.0, 0.5], [129.0, 0.5], [64.0, 0.25],
     ] {
         g.push(("Binomial", p.to_vec()));
     }
